@@ -34,7 +34,7 @@ type ReportCase struct {
 }
 
 var ProfOpts = gen.Opts{Alpha: gen.Plain, MaxSamples: 8, MaxDepth: 6, MaxLines: 3, MinTypes: 1, MaxTypes: 3, AnyIDs: true, NoHugeIDs: true,
-	Labels: true, NumLabels: true, EmptyStacks: true, NoMapping: true, Unsym: true, LosslessU: true, Columns: true, Unused: true}
+	Labels: true, NumLabels: true, EmptyStacks: true, NoMapping: true, Unsym: true, LosslessU: true, Columns: true, Unused: true, NearDup: true}
 
 // GenProfile draws a report-friendly profile: sample units that print losslessly, unit-less numeric labels.
 func GenProfile(t *rapid.T, o gen.Opts) *gen.Prof {
